@@ -216,6 +216,9 @@ def vocab_cases(st, t):
             out.append(("valid:placeholder:ctx4", f"({s}, {t.long}/#)", None, (True,)))
         if ucs and val is not None:
             both("unknown-unit", t.name + "/3.5 zzq")
+            if st.text_tag is not None and st.text_tag is not t:
+                # a placeholder in another tag of the annotation does not excuse this one (placeholders allowed)
+                both("unknown-unit", st.text_tag.name + "/#, " + t.name + "/3.5 zzq", (True,))
             fu = v.foreign_unit(t)
             if fu:
                 both("foreign-unit", t.name + "/3.5 " + fu)
@@ -226,6 +229,8 @@ def vocab_cases(st, t):
         if vcs == ["numericClass"]:
             unit = v.a_unit(t) if ucs else None
             both("non-numeric-value", t.name + "/abc" + (" " + unit if unit else ""))
+            if st.text_tag is not None and st.text_tag is not t:
+                both("non-numeric-value", st.text_tag.name + "/#, " + t.name + "/abc" + (" " + unit if unit else ""), (True,))
         if vcs == ["numericClass"]:
             # conforming numbers in scientific notation, exponent letter in either case
             unit = v.a_unit(t) if ucs else None
@@ -649,7 +654,7 @@ def worker(rec, shard, nshards, setups, bounds, seed):
 def pick_files(ctx):
     files = core.bundled_files()
     if not ctx.thorough:
-        files = ["HED8.3.0.xml", "HED_testlib_2.0.0.xml", "HED_score_1.0.0.xml"]
+        files = ["HED8.3.0.xml", "HED_testlib_2.0.0.xml", "HED_score_1.0.0.xml", "HED_testlib_1.0.2.xml"]
     return files
 
 
